@@ -393,10 +393,9 @@ func (w *world) specs(c *core.Ctx) []spec {
 		}
 		// wire-level operators on every field of the proto seeds
 		if s.nodes != nil {
-			cnt := pwCount(s.nodes)
-			for k := 0; k < cnt; k++ {
+			for k, t := range pwTypes(s.nodes) {
 				for v := 0; v < pwVariants; v++ {
-					if thorough || r.IntN(12) == 0 {
+					if pwApplies(t, v) && (thorough || r.IntN(8) == 0) {
 						addS(spec{seed: i, op: "pw", a: k, b: v})
 					}
 				}
@@ -413,7 +412,7 @@ func (w *world) specs(c *core.Ctx) []spec {
 			}
 		}
 		// stacked random edits (always cross-fed) and re-encoded mutants of the raw seeds
-		for k := 0; k < c.N(20, 300); k++ {
+		for k := 0; k < c.N(20, 1000); k++ {
 			add(spec{seed: i, op: "stack", cross: true})
 		}
 		if !s.proto && !s.text && (s.kind == "snp" || s.kind == "tdx" || s.kind == "certtable") {
@@ -422,7 +421,7 @@ func (w *world) specs(c *core.Ctx) []spec {
 			}
 		}
 	}
-	for k := 0; k < c.N(150, 3000); k++ {
+	for k := 0; k < c.N(150, 10000); k++ {
 		add(spec{seed: -1, op: "random", cross: true})
 	}
 	for k := 0; k < len(patterns); k++ {
@@ -625,7 +624,16 @@ func run(c *core.Ctx) {
 		}
 	}
 	saved := ""
+	lastSig := -1
 	saveTallies := func() {
+		sig := 0
+		for _, t := range tallies {
+			sig += min(t.GenuineOK, 1) + min(t.MutantOK, 1) + min(t.MutantErr, 1)
+		}
+		if sig == lastSig { // the booleans only ever go from false to true
+			return
+		}
+		lastSig = sig
 		m := map[string]*tally{}
 		for n, t := range tallies {
 			m[n] = &tally{GenuineOK: min(t.GenuineOK, 1), MutantOK: min(t.MutantOK, 1), MutantErr: min(t.MutantErr, 1)}
@@ -662,6 +670,11 @@ func run(c *core.Ctx) {
 			e.end = pe
 		}
 		genuine := class == "genuine"
+		if !genuine && s.seed >= 0 && bytes.Equal(b, w.seeds[s.seed].data) {
+			// the operator wrote what was already there: not a mutant, and not counted as one
+			genuine = true
+			c.Count("cases-identical-to-genuine", 1)
+		}
 		// per-case parameters
 		e.vmsas = []uint32{0, 1, 4, 4, 2, 7}[r.IntN(6)]
 		e.ram = []int{0, 16, 16, 32, 64}[r.IntN(5)]
